@@ -50,14 +50,9 @@ func Match(patterns []string, mode Mode, s string) (string, error) {
 	if m := rx.FindStringSubmatch(s); m != nil {
 		for mode&Smallest != 0 && mode&Suffix != 0 {
 			s = s[len(s)-len(m[0]):]
-			r, w := utf8.DecodeRuneInString(s)
-			if r == utf8.RuneError {
-				if w == 0 {
-					break
-				} else {
-					m[0] = m[0][w:]
-					continue
-				}
+			_, w := utf8.DecodeRuneInString(s)
+			if w == 0 {
+				break
 			}
 			sm := rx.FindStringSubmatch(s[w:])
 			if sm == nil {
